@@ -124,14 +124,18 @@ def r1_pairing(repo: Repo, rep):
             continue
         ops, d = _cat_operands(c.args[0])
         lv = [k for k, it in p.loopvars.items() if dump(it) in (cp, f"{cp}.keys()")]
-        stores = [e for e in p.events if e.kind == "store" and e.raw is not None and dump(e.raw.value) == "space"]
+        rawret = getattr(p.ret_node, "value", None)
+        spname = None
+        if isinstance(rawret, ast.Call) and len(rawret.args) > 1 and isinstance(rawret.args[1], ast.Call) and rawret.args[1].args and isinstance(rawret.args[1].args[0], ast.Name):
+            spname = rawret.args[1].args[0].id  # the local mapping handed to Space(...)
+        stores = [e for e in p.events if e.kind == "store" and e.raw is not None and spname is not None and dump(e.raw.value) == spname]
         good = bool(lv) and isinstance(ops, list) and len(ops) == 1 and d == "-1" and len(stores) == 1 and dump(stores[0].raw.slice) == lv[0]
         if good:
             el = dump(ops[0])
             good = el in (f"{cp}[{lv[0]}]", f"torch.as_tensor({cp}[{lv[0]}])")
             dimv = dump(stores[0].value)
             good = good and dimv.endswith(".shape[-1]") and f"{cp}[{lv[0]}]" in dimv
-            good = good and dump(c.args[1]) in ("Space(space)", "Space({})")
+            good = good and dump(c.args[1]) in (f"Space({spname})", "Space({})")
         rep.check(R, good, fi.site(p.ret_node), fi.fq, "columns appended and space entries inserted in one loop over the mapping", dump(p.ret)[:120], dump(p.ret)[:120])
 
 
